@@ -56,8 +56,8 @@ Qed.
 
 (* "every diagnostic carries a code of the published catalogue": over the table of ALL static emission sites of the
    package (Gen/Emitters.v, regenerated from the source on every run: calls of new_error / new_warning / Error.from_name /
-   Error(...)), every literal code is a key of the catalogue, except the listed ones (BAD_LEXEME - recorded finding, built
-   with a free-form text - and three literals at sites that would raise KeyError in Error.from_name if reached); no site has
+   Error(...)), every literal code is a key of the catalogue, except the listed ones (three literals at sites
+   that would raise KeyError in Error.from_name if reached; BAD_LEXEME, once built with a free-form text, is a catalogue key now); no site has
    an opaque (computed) code outside the two known patterns.  Diagnostics created through Error.from_name / new_error take
    their text FROM the catalogue (errors.py), so code-in-catalogue implies catalogue text. *)
 Theorem C08_static_codes_in_catalogue_partial :
@@ -70,9 +70,10 @@ Theorem C08_no_opaque_emitter : opaque_free = true.
 Proof. exact emitters_opaque_free. Qed.
 Print Assumptions C08_no_opaque_emitter.
 
-Theorem C08_refuted_bad_lexeme_not_in_catalogue : in_catalogue "BAD_LEXEME" = false.
-Proof. exact BAD_LEXEME_not_in_catalogue. Qed.
-Print Assumptions C08_refuted_bad_lexeme_not_in_catalogue.
+(* the former finding C08-bad-lexeme-not-in-catalogue, repaired in the source *)
+Theorem C08_bad_lexeme_in_catalogue : in_catalogue "BAD_LEXEME" = true.
+Proof. exact BAD_LEXEME_in_catalogue. Qed.
+Print Assumptions C08_bad_lexeme_in_catalogue.
 
 (* "a position inside the file (1 <= line <= number of lines, column >= 1)": for EVERY source text and EVERY token of the
    lexer model.  Engine diagnostics are located at tokens (Highlight.from_token copies the token's position; or, for
